@@ -1,5 +1,6 @@
 import S2T.Drv.Util
 import S2T.Gen.SharePoint
+import S2T.Model.SharePointRaw
 namespace S2T.Drv.C18
 open Lean S2T.Drv S2T.SP
 
@@ -22,8 +23,41 @@ def strArr (j : Json) (k : String) : Except String (List Str) := do
   let a ← getArr j k
   a.toList.mapM (fun x => chars <$> x.getStr?)
 
+/-- a facet as the harness saw it: `null` = member missing, else `{"cc": n | null, "extra": bool}` -/
+def parseFacet (j : Json) (k : String) : Except String Facet :=
+  match j.getObjVal? k with
+  | .ok .null => .ok .absent
+  | .error _ => .ok .absent
+  | .ok v => do
+    let cc ← match v.getObjVal? "cc" with
+      | .ok .null => pure none
+      | .ok n => some <$> n.getNat?
+      | .error _ => pure none
+    return .obj cc ((v.getObjValAs? Bool "extra").toOption.getD false)
+
+def flag (j : Json) (k : String) : Bool := (j.getObjValAs? Bool k).toOption.getD false
+
+/-- a RAW item: the members present and the facet shapes; what it IS is decided by the model (`classify`) -/
+def parseRaw (j : Json) : Except String RawItem := do
+  if !(flag j "dict") then return { isDict := false }
+  let id ← match j.getObjVal? "id" with
+    | .ok (.str s) => pure (if s.isEmpty then RawId.falsy else RawId.str (chars s))
+    | .ok .null => pure (if flag j "hasId" then RawId.falsy else RawId.absent)
+    | .error _ => pure RawId.absent
+    | .ok _ => throw "raw item: id"
+  let o ← j.getObjVal? "opt"
+  let size ← match o.getObjVal? "size" with
+    | .ok .null => pure none
+    | .ok n => some <$> n.getNat?
+    | .error _ => pure none
+  return { isDict := true, name := ← optStr j "name", id := id, folder := ← parseFacet j "folder", file := ← parseFacet j "file",
+           created := ← optStr j "created", modified := ← optStr j "modified",
+           opt := { size := size, webUrl := flag o "webUrl", downloadUrl := flag o "downloadUrl", parentRef := flag o "parentRef",
+                    fileSystemInfo := flag o "fileSystemInfo", listItem := flag o "listItem", extraFacet := flag o "extraFacet" } }
+
 def parseItem (j : Json) : Except String Item := do
   match ← getStr j "t" with
+  | "raw" => return classify (← parseRaw j)
   | "file" => return .file ⟨chars (← getStr j "name"), chars (← getStr j "id"), ← optStr j "created", ← optStr j "modified"⟩
   | "folder" => return .folder (chars (← getStr j "name")) (← optStr j "id")
   | "other" => return .other
